@@ -401,10 +401,42 @@ def r5_reference_predicates(ctx, res):
             res.find(key + ':' + needle[:10], v.module.loc(v.node), f'validate() no longer builds `{needle[:40]}...`')
 
 
+BLANK_CHECKS = {'W305': ('_blank_synset_definition', 'definitions'), 'W306': ('_blank_synset_example', 'examples')}
+
+
+def r6_blank_predicates(ctx, res):
+    """W305 / W306 list the synsets with a *blank* definition / example: text that is empty or consists of whitespace only
+    (the loader keeps whitespace verbatim under xml:space="preserve", and in-memory resources are not normalised at all).
+    Necessary shape: the predicate looks at the text through a whitespace-insensitive operation (strip / isspace / split),
+    over every item of the list (any), for every synset."""
+    for code, (fname, lst) in BLANK_CHECKS.items():
+        f = ctx.repo.func('validate', fname)
+        key = f'blank-predicate:{code}'
+        texts = [n for n in ast.walk(f.node) if isinstance(n, ast.Subscript) and isinstance(n.slice, ast.Constant) and n.slice.value == 'text']
+        res.inst(key, f.module.loc(f.node), f'{len(texts)} uses of [\'text\']')
+        if not texts:
+            res.find(key, f.module.loc(f.node), f'{code} ({fname}) no longer looks at the text of the {lst}')
+            continue
+        for t in texts:
+            par = getattr(t, '_parent', None)
+            ws = isinstance(par, ast.Attribute) and par.attr in ('strip', 'isspace', 'split') and isinstance(getattr(par, '_parent', None), ast.Call) \
+                and not par._parent.args
+            if not ws:
+                res.find(key, f.module.loc(t), f'{code} ({fname}) tests `{norm(getattr(par, "_parent", par) if par is not None else t)[:60]}`: a text that consists of '
+                                               f'whitespace only is blank but is no longer reported (the condition must go through '
+                                               f'strip()/isspace())')
+        key = f'blank-domain:{code}'
+        src = norm(f.node)
+        res.inst(key, f.module.loc(f.node), f'any(... for x in ss.get({lst!r}, [])) for ss in _synsets(lex)')
+        if 'any(' not in src or f"ss.get('{lst}', [])" not in src.replace('"', "'") or 'for ss in _synsets(lex)' not in src:
+            res.find(key, f.module.loc(f.node), f'{code} no longer ranges over every item of `{lst}` of every synset of the lexicon')
+
+
 RULES = [
     ('C18-R1', r1_totality, 70),
     ('C18-R2', r2_registry, 20),
     ('C18-R3', r3_relation_tables, 80),
     ('C18-R4', r4_rejected_by_add, 9),
     ('C18-R5', r5_reference_predicates, 4),
+    ('C18-R6', r6_blank_predicates, 4),
 ]
